@@ -73,6 +73,7 @@ type tvEvent struct {
 	Missing []tvKey    `json:"missing"`
 	Panic   bool       `json:"panicked"`
 	FlatLen []int      `json:"flatlen"`
+	Ids     [][]uint64 `json:"ids"`
 	Snap    []tvSnap   `json:"snap"`
 	Text    string     `json:"text"`
 }
@@ -83,6 +84,8 @@ type RepoTraceStats struct {
 	Containers int            // containers with a "new" event
 	Converted  int            // containers turned into a recorded history
 	Skipped    map[string]int // reason -> containers left out (shapes outside the specification's vocabulary)
+	ArgValues  int            // values received by user functions in the converted containers
+	Identified int            // of those, identified by pointer with the execution that produced them
 }
 
 type tvConv struct {
@@ -145,6 +148,20 @@ func LoadRepoTrace(path string, st *RepoTraceStats) ([]*Recorded, error) {
 		}
 		st.Containers++
 		rec, why := convertContainer(evs)
+		if rec != nil {
+			for _, e := range rec.Ops {
+				for _, ev := range e.Log {
+					for _, a := range ev.Args {
+						for _, p := range a {
+							st.ArgValues++
+							if p.F != "?" {
+								st.Identified++
+							}
+						}
+					}
+				}
+			}
+		}
 		if rec == nil {
 			st.Skipped[why]++
 			continue
@@ -190,6 +207,10 @@ func convertContainer(evs []*tvEvent) (*Recorded, string) {
 		return out
 	}
 	execs := map[string]int{}
+	// identity of values: token -> the results committed under it (pointer identity; a token with
+	// several producers - a decorator handing its input on - identifies nothing)
+	producers := map[uint64][]univ.Prov{}
+	unknown := univ.Prov{F: "?"}
 	var cur *Entry      // Invoke in progress
 	var entered []Event // executions of the Invoke in progress (pointers into cur.Log by index)
 	snapOf := func(sn []tvSnap) *Snap {
@@ -316,7 +337,19 @@ func convertContainer(evs []*tvEvent) (*Recorded, string) {
 				}
 			}
 			execs[id]++
-			cur.Log = append(cur.Log, Event{T: "exec", F: id, N: execs[id], O: "?"})
+			ev := Event{T: "exec", F: id, N: execs[id], O: "?"}
+			for _, toks := range e.Ids {
+				arg := []univ.Prov{}
+				for _, tok := range toks {
+					if ps := producers[tok]; tok != 0 && len(ps) == 1 {
+						arg = append(arg, ps[0])
+					} else {
+						arg = append(arg, unknown)
+					}
+				}
+				ev.Args = append(ev.Args, arg)
+			}
+			cur.Log = append(cur.Log, ev)
 		case "commit":
 			if cur == nil {
 				return nil, "results committed outside any Invoke"
@@ -339,6 +372,26 @@ func convertContainer(evs []*tvEvent) (*Recorded, string) {
 				}
 				if !found {
 					return nil, "commit without execution"
+				}
+			}
+			for i, toks := range e.Ids {
+				for x, tok := range toks {
+					if tok == 0 {
+						continue
+					}
+					p := univ.Prov{F: id, N: execs[id], I: i + 1}
+					if len(toks) != 1 || (i < len(c.Fns[id].Rs) && (c.Fns[id].Rs[i].M == "flat" || (e.Kind == "dec" && c.Fns[id].Rs[i].M == "grp"))) {
+						p.E = x + 1
+					}
+					dup := false
+					for _, q := range producers[tok] {
+						if q == p {
+							dup = true
+						}
+					}
+					if !dup {
+						producers[tok] = append(producers[tok], p)
+					}
 				}
 			}
 			fn := c.Fns[id]
